@@ -1,10 +1,12 @@
 /-
-  C16 — static evaluation is pure, colour-symmetric and bounded (first part: purity and side-to-move).
+  C16 — static evaluation is pure, colour-symmetric and bounded.
 
   Model: `Jence.evaluate` (`src/evaluation.rs`).
 -/
 import Jence.Model.Eval
 import Jence.Lemmas.EvalBound
+import Jence.Lemmas.EvalMirror
+import Jence.Lemmas.Wf
 namespace Jence.Props.C16
 open Jence
 
@@ -37,6 +39,41 @@ theorem eval_congr (g h : Game) (hb : g.bbs = h.bbs) (hw : g.whiteOcc = h.whiteO
 theorem eval_bounded (g : Game) (h : MenOk g) : -Gen.MATE_BOUND < evaluate g ∧ evaluate g < Gen.MATE_BOUND :=
   evaluate_bound g h
 
+/-- **T16.3** The colour-mirrored position - every piece set flipped top to bottom and handed to the other colour, the
+    occupancy sets swapped likewise, the mover swapped - gets the same value, for every position whose pawns stand on
+    rows 2-7 (every legal position). The proof goes piece by piece: material weights are opposite, the black
+    piece-square index is the mirrored white one (`MIRRORED`), knight and king patterns and the file / isolated masks are
+    mirror-invariant (kernel-decided over all squares), the slider lookups commute with the mirror for every occupancy
+    (`Lemmas/Flip.rookAttacks_flip`, through T15.1/T15.3), population counts and emptiness tests are mirror-invariant, and
+    a sum over a mirrored piece set is the sum over the set re-indexed. The engine's "passed pawn" masks are *not* mirror
+    images of each other on the back rows (`RANK_MASKS[rr * 8]` is always row 8), which is where the hypothesis enters. -/
+theorem eval_mirror (g g' : Game) (hm : IsMirror g g') (hp : PawnRows g) : evaluate g' = evaluate g :=
+  evaluate_mirror hm hp
+
+/-- the same for the mirror as a function -/
+theorem eval_mirror_fn (g : Game) (hp : PawnRows g) : evaluate (mirror g) = evaluate g :=
+  evaluate_mirror (mirror_isMirror g) hp
+
+/-- consistent positions have their pawns on rows 2-7 -/
+theorem wf_pawnRows (g : Game) (b : Board) (wf : Wf g b) : PawnRows g := by
+  intro v hv h
+  apply wf.ok.pawns v hv
+  rcases h with h | h
+  · left; have := rep_bit g.bbs b wf.rep WP v (by decide) hv; rw [show g.bb WP = g.bbs.getD WP 0 from rfl] at h; rw [this] at h; simpa using h
+  · right; have := rep_bit g.bbs b wf.rep BP v (by decide) hv; rw [show g.bb BP = g.bbs.getD BP 0 from rfl] at h; rw [this] at h; simpa using h
+
+/-- **T16.3 for consistent positions** -/
+theorem eval_mirror_wf (g : Game) (b : Board) (wf : Wf g b) : evaluate (mirror g) = evaluate g :=
+  eval_mirror_fn g (wf_pawnRows g b wf)
+
+/-- mirroring twice gives back the piece sets, the occupancies and the mover -/
+theorem mirror_mirror_bb (g : Game) (p : Nat) (hp : p < 12) : (mirror (mirror g)).bb p = g.bb p := by
+  have h1 := (mirror_isMirror (mirror g)).bb p hp
+  have hlt : (p + 6) % 12 < 12 := Nat.mod_lt _ (by decide)
+  have h2 := (mirror_isMirror g).bb _ hlt
+  have hback : ((p + 6) % 12 + 6) % 12 = p := by omega
+  rw [h1, h2, hback, flipBB_flipBB]
+
 /-- the start position as the engine represents it -/
 def startGame : Game :=
   { bbs := #[0x00ff000000000000, 0x4200000000000000, 0x2400000000000000, 0x8100000000000000, 0x0800000000000000, 0x1000000000000000,
@@ -48,5 +85,16 @@ set_option maxRecDepth 100000 in
 /-- non-vacuity: the hypothesis holds of the start position -/
 example : MenOk startGame := by
   constructor <;> decide +kernel
+
+/-- non-vacuity of T16.3: the start position has its pawns on rows 2-7 -/
+example : PawnRows startGame := by unfold PawnRows; decide +kernel
+
+/-- the hypothesis of T16.3 is needed: with a black pawn on row 1 behind a white pawn (not a legal position) the two
+    values differ - the "passed pawn" masks of the two colours are not mirror images on the back rows. Outside the
+    property's quantifier (legal positions); recorded as an observation. -/
+def backRowPawns : Game :=
+  { bbs := #[bit 28, 0, 0, 0, 0, 0, bit 60, 0, 0, 0, 0, 0], whiteOcc := bit 28, blackOcc := bit 60, allOcc := bit 28 ||| bit 60,
+    white := true, ep := 64, castling := 0, fullMoves := 1, halfMoves := 0, key := 0 }
+theorem mirror_needs_pawn_rows : evaluate (mirror backRowPawns) ≠ evaluate backRowPawns := by decide +kernel
 
 end Jence.Props.C16
